@@ -6,7 +6,7 @@ from ..core import hexs, unhex, sx_parse, sx_str
 from ..runner import Stream
 
 ID = "C16"
-AREAS = ["aot"]
+AREAS = ["aot", "fish"]
 RULE = ("random command trees (subcommand depth <= 3; visible and hidden aliases of commands and of options; hyphenated "
         "names; names sharing prefixes; names repeated at different levels; options with only a short or only a long; "
         "positionals; value hints; possible values, some hidden; global args; version / propagate_version / disabled "
@@ -760,6 +760,18 @@ def nontrivial(case, impl):
     return impl.startswith("(shell") and "(subs (node" in impl
 
 
+# ---- fish generator model ----
+def fish_project(r):
+    """the generated file, byte for byte (implementation: `(script x..)` item of the aot result; model: the same item)"""
+    if r is None:
+        return "none"
+    if r.startswith("PANIC"):
+        return "PANIC"
+    m = re.search(r"\(script (x[0-9a-f]*)\)", r)
+    return "script " + m.group(1) if m else r.split(" ")[0]
+# ---- end fish generator model ----
+
+
 # ----------------------------------------------------------------- adversarial trees (known families and their borders)
 def adv_dunder(g, rng):
     """names with '__', a trailing '_', and paths that collide after '-' -> '__'"""
@@ -837,6 +849,19 @@ def streams(tier, rng):
         cases.append(c)
         merge(dist, st)
     out.append(Stream("adversarial", cases, oracle=oracle, area="aot", project=project, nontrivial=nontrivial, describe=dist))
+    # ---- fish generator model ----
+    # 4. the byte-exact Gallina model of fish.rs (Complete/FishModel.v, driver ocaml/fish_driver.ml) against the real
+    #    generator: the whole file is compared, whitespace included
+    n = 120 if quick else 1500
+    cases, dist = [], {}
+    for i in range(n):
+        prof = {"alias_without_primary": True} if i % 8 == 7 else None
+        c, st = make_case(rng, "fish", tier, profile=prof)
+        cases.append(c)
+        merge(dist, st)
+    out.append(Stream("fish-model", cases, oracle=oracle, area="fish", project=fish_project, nontrivial=nontrivial,
+                      describe=dist))
+    # ---- end fish generator model ----
     return out
 
 
